@@ -1,5 +1,7 @@
 import WfModel.Replay
 import WfModel.TickStream
+import WfModel.TickTable
+import WfModel.GenReplay
 import Driver.Engine
 /-! Line protocol for the restart model (`WfModel/Replay.lean`); every op of the `engine`
 driver is accepted too (same parsers/printers, same state), so a resumed runner can be driven on.
@@ -14,6 +16,8 @@ driver is accepted too (same parsers/printers, same state), so a resumed runner 
     stream <page> <n> <sequence>*n                  what SqliteWorkflowStore.stream_ticks yields for a run with these rows
     rowmark <n> <I|S|R|P>*n                         the handler row's idle marker / the run in memory after these events
     restartrow <n> <I|S|R|P>*n <restart arguments>  one handler of _on_server_start on the stack with the idle-release layer
+    c13table <sql|mem> <run> <n> (<run> <data>)*n   get_ticks(run) of that store after these append_tick calls on an empty store: <seq>:<data> rows
+                                                    (constants of the statement / the list rule: GenReplay, i.e. the current source)
 -/
 open Engine
 
@@ -141,6 +145,16 @@ def step (d : RState) (line : String) : RState × String :=
     match (do let page ← nat; let rows ← counted nat; pure (page, rows)) ts with
     | some ((page, rows), []) =>
       if page == 0 then (d, "bad-op") else (d, sList toString (TickStream.streamTicks page rows))
+    | _ => (d, "bad-op")
+  | "c13table" :: ts =>
+    match (do let kind ← tok; let run ← nat; let h ← counted (do let r ← nat; let x ← nat; pure (r, x)); pure (kind, run, h)) ts with
+    | some ((kind, run, h), []) =>
+      let sRow := fun (r : TickTable.Row) => s!"{r.seq}:{r.data}"
+      if kind == "sql" then
+        (d, sList sRow (TickTable.sqlGetTicks (TickTable.sqlRun GenReplay.sqlAppendCoalesce GenReplay.sqlAppendInc [] h) run))
+      else if kind == "mem" then
+        (d, sList sRow (TickTable.memGetTicks (TickTable.memRun GenReplay.memAppendFirst GenReplay.memAppendInc [] h) run))
+      else (d, "bad-op")
     | _ => (d, "bad-op")
   | "pick" :: ts =>
     match (do let reg ← counted nat; let act ← counted nat; let res ← counted nat; let rows ← counted rowP
